@@ -60,14 +60,21 @@ CRITPATH_TIE = ("TRANSLATED tie: tools/extract_critpath.py turns, on every run, 
                 "passes is the stream's business (its decimal sub-stream). 26 semantic edits tried: 16 change results and fail kernel-checked "
                 "examples, 4 are result-preserving and fail only the lemmas, 2 tolerance variants differ off the grid only, 4 leave the fragment. ")
 
+RENDER_TIE = ("TRANSLATED tie of the Mermaid renderers: tools/extract_render.py turns MermaidNetwork.__label / __src and MermaidGantt."
+              "__mermaid_task_state / __mermaid_task / __src into a PyLite program on every run; C19_source_* (Props/C19Src.lean, Lemmas/RenderSrc*.lean) "
+              "prove, for every string library whose encoding round-trips, every view (members, title, flags, clock, style texts) and task "
+              "description: the network label (quotes removed, both braces escaped) and the whole network source (one edge per predecessor, "
+              "Start edges, style lines) are the model's; the Gantt task state (milestone / done / active) and task line are the model's. The "
+              "Gantt __src (title, weekends, tick interval, grouping into sections) is tied by kernel-evaluated runs on concrete views (tests at "
+              "the level of the kernel). Not translated: the DHTMLX renderer, to_html and the templates. 10 semantic edits tried, all caught. ")
+
 PRINT_TIE = ("TRANSLATED tie of the sheet printer: tools/extract_print.py turns _Repr of task.py (cell texts, layout numbers, row sequence, "
              "repr) into a PyLite program on every run; C20_source_* (Props/C20Src.lean, Lemmas/PrintSrc*.lean) prove, for every string library "
              "whose encoding round-trips: the cell text of EVERY field name (link cells with the (external) marker, computed fields, unknown and "
              "differently-cased names, None, datetimes, str()) is the model's cell function; __print_task_subtree hands the table exactly the "
              "model's rows in depth-first order with the colour rule (print_color, level colour, GREY) - for print_color values that are None "
-             "or a str; repr returns the model's sheet (header row + rows of every listed task). The two width functions are tied by "
-             "kernel-evaluated runs on a concrete WBS (tests at the level of the kernel); TextTable / colored_text are a primitive whose meaning "
-             "is the model's render. 11 semantic edits tried, all caught. ")
+             "or a str; repr returns the model's sheet (header row + rows of every listed task); the two width functions are the model's. "
+             "TextTable / colored_text are a primitive whose meaning is the model's render. 11 semantic edits tried, all caught. ")
 
 CSV_TIE = ("TRANSLATED tie of CSV I/O (write side complete, read side partial): tools/extract_csv.py turns the cell parsers / formatters, "
            "read_csv, write_csv (io/csv_io.py) and tasks_to_raws / raws_to_wbs (io/raw.py) into a PyLite program on every run; C13_source_* "
@@ -247,7 +254,7 @@ CLAIMED = {
               "entry per task with id, name, dates, parent id or 0; links numbered 1..k, one per dependency; progress within 0..1). JSON "
               "well-formedness and HTML escaping are json.dumps / html.escape of the standard library: not modelled, judged on the "
               "implementation's output by json.loads / html.unescape in the stream. The model's text must equal the implementation's character "
-              "for character (random scheduled WBSs, sections, styles, milestones, hostile names)."),
+              "for character (random scheduled WBSs, sections, styles, milestones, hostile names)." + ' ' + RENDER_TIE),
         design='7 (C19), 12.5', technique='Lean 4 proof (printer/reader round trip per rendering) + differential correspondence on the exact text'),
     'C20': dict(
         text=("Theorems about the model of TextTable and _Repr for all tables and sheets: C20_wide (every column is at least as wide as its "
